@@ -40,6 +40,7 @@ type Operator struct {
 	events                  chan func()
 	stop                    context.CancelFunc
 	isHalting               atomic.Bool
+	deployments             uint64 // Counts HandleDeploy calls; guarded by mu
 	status                  *operatorStatus
 	eventBatcher            *batching.EventBatcher[RxnHandlerEvent]
 	eventBatchingParams     batching.EventBatcherParams
@@ -177,6 +178,7 @@ func (o *Operator) HandleDeploy(ctx context.Context, req *workerpb.DeployOperato
 	// checkpoint that was in flight in the previous assembly will never get its
 	// remaining barriers (senders waiting for them are let through), and events
 	// not yet processed will be read again.
+	o.deployments++
 	o.checkpoint.abort()
 	o.checkpoint = nil
 	if o.eventBatcher != nil {
@@ -263,25 +265,43 @@ func (o *Operator) HandleEvent(ctx context.Context, senderID string, req *worker
 
 	// Block the sender to align checkpoint barriers if needed
 	o.mu.RLock()
+	deployment := o.deployments
 	waitOnAlignment := o.checkpoint.alignSender(senderID)
 	o.mu.RUnlock()
 	waitOnAlignment()
 	verifhook.At("operator.align.pass", senderID)
+
+	// An event that was received before the operator was deployed again belongs
+	// to the previous assembly, however long it waited (blocked behind a
+	// checkpoint that the deployment gave up, or queued behind the event loop).
+	// The new assembly starts over from a checkpoint and reads the event again,
+	// so processing it now would apply it twice - and to the state of another
+	// key group range if the operator's position changed. Keyed events and
+	// watermarks are handled under the read lock so that a deployment can't
+	// replace the state store in the middle of them.
+	current := func(handle func() error) error {
+		o.mu.RLock()
+		defer o.mu.RUnlock()
+		if o.deployments != deployment {
+			return o.errRedeployed()
+		}
+		return handle()
+	}
 
 	// Collect the err response from the queued event.
 	respErr := make(chan error)
 	switch typedEvent := req.Event.(type) {
 	case *workerpb.Event_KeyedEvent:
 		o.events <- func() {
-			respErr <- o.handleUserEvent(ctx, typedEvent.KeyedEvent)
+			respErr <- current(func() error { return o.handleUserEvent(ctx, typedEvent.KeyedEvent) })
 		}
 	case *workerpb.Event_Watermark:
 		o.events <- func() {
-			respErr <- o.handleWatermark(ctx, senderID, typedEvent.Watermark)
+			respErr <- current(func() error { return o.handleWatermark(ctx, senderID, typedEvent.Watermark) })
 		}
 	case *workerpb.Event_CheckpointBarrier:
 		o.events <- func() {
-			respErr <- o.handleCheckpointBarrier(ctx, senderID, typedEvent.CheckpointBarrier)
+			respErr <- o.handleCheckpointBarrier(ctx, senderID, typedEvent.CheckpointBarrier, deployment)
 		}
 	case *workerpb.Event_SourceComplete:
 		o.events <- func() {
@@ -348,10 +368,19 @@ func (o *Operator) handleWatermark(ctx context.Context, senderID string, wm *wor
 	return nil
 }
 
-func (o *Operator) handleCheckpointBarrier(ctx context.Context, senderID string, barrier *workerpb.CheckpointBarrier) error {
+func (o *Operator) errRedeployed() error {
+	return connect.NewError(connect.CodeUnavailable, fmt.Errorf("operator was deployed again after the event was received"))
+}
+
+func (o *Operator) handleCheckpointBarrier(ctx context.Context, senderID string, barrier *workerpb.CheckpointBarrier, deployment uint64) error {
 	// Get lock for checkpoint resource which is shared between all callers.
 	o.mu.Lock()
 	defer o.mu.Unlock()
+
+	// A barrier of the previous assembly (see HandleEvent)
+	if o.deployments != deployment {
+		return o.errRedeployed()
+	}
 
 	if o.checkpoint == nil {
 		o.checkpoint = newCheckpoint(barrier.CheckpointId, o.sourceRunners.all)
